@@ -547,6 +547,123 @@ for _i in range(1, 21):
     rule(_p)(_make_deadfield(_p))
 
 
+# ------------------------------------------------------------------------------------------------ identity comparisons on values
+
+
+def identity_on_values(ctx: Ctx, files: set[str] | None):
+    """`is` / `is not` comparisons: sites, and whether an operand folds to a number / string / tuple (an IntEnum member counts: it
+    is an int, callers may pass the plain int, and two equal ints need not be the same object).  `x is 355` is false for an int
+    computed at run time; `numbering is HebrewMonthNumbering.CIVIL` is false for the plain 1 the factory also accepts."""
+    from ..model import UNKNOWN
+
+    M = ctx.M
+    for f in sorted(set(M.func_of_node.values()), key=lambda x: x.qual):
+        if "_compatibility" in f.mod.rel or (files is not None and f.mod.rel not in files):
+            continue
+        nodes = ast.walk(f.node) if isinstance(f.node, ast.Lambda) else own_nodes(f.node)
+        for c in nodes:
+            if not (isinstance(c, ast.Compare) and any(isinstance(o, (ast.Is, ast.IsNot)) for o in c.ops)):
+                continue
+            bad = None
+            for s_ in [c.left] + list(c.comparators):
+                if isinstance(s_, ast.Constant) and (s_.value is None or s_.value is True or s_.value is False or s_.value is Ellipsis):
+                    continue
+                v = M.fold(s_, f.cls, f.mod) if isinstance(s_, (ast.Attribute, ast.Name, ast.Constant)) else UNKNOWN
+                if isinstance(v, (int, str, float, bytes, tuple)) and not isinstance(v, bool):
+                    bad = (unparse(s_), v)
+            yield f, c, bad
+
+
+def _make_identity(prop: str):
+    def r_identity(ctx: Ctx) -> RuleResult:
+        rr = RuleResult(f"R{prop[1:]}.identity", "`is` / `is not` never compares numbers, strings or IntEnum members (identity of equal values is an accident of the interpreter)", min_instances=0)
+        if "identity_total" not in ctx.cache:
+            ctx.cache["identity_total"] = sum(1 for _ in identity_on_values(ctx, None))
+        if ctx.cache["identity_total"] < 150:
+            from ..model import AnalysisError
+
+            raise AnalysisError(f"identity-comparison enumerator finds only {ctx.cache['identity_total']} comparisons in the whole package (208 confirmed)")
+        for f, c, bad in identity_on_values(ctx, anchor_scope(ctx, prop)):
+            rr.inst(nontrivial=False)
+            if bad:
+                rr.fail(f.qual, f"`{unparse(c)[:80]}` compares by identity with `{bad[0]}` = {bad[1]!r}: an equal value that is not the very same object takes the other branch", ctx.loc(f, c))
+            else:
+                rr.ok()
+        return rr
+
+    r_identity.__name__ = f"r{prop[1:]}_identity_on_values"
+    return r_identity
+
+
+for _i in range(1, 21):
+    _p = f"C{_i:02d}"
+    rule(_p)(_make_identity(_p))
+
+
+# ------------------------------------------------------------------------------------------------ what is validated is what is used
+
+
+def validated_then_replaced(ctx: Ctx, files: set[str] | None):
+    """A name is validated (`..._validate_...(name, ...)`, `_check_argument_range("name", name, lo, hi)`) and later, in the same
+    function, REPLACED by a value computed from other inputs as well: the value that is used was never validated (e.g. the year
+    validated as given, then converted from year-of-era to an absolute year with the era).  Re-normalising the validated value
+    from itself (`n = trunc(n)`, `millis += DAY`) is fine."""
+    M = ctx.M
+    for f in sorted(set(M.func_of_node.values()), key=lambda x: x.qual):
+        if isinstance(f.node, ast.Lambda) or "_compatibility" in f.mod.rel or (files is not None and f.mod.rel not in files):
+            continue
+        stmts = list(own_nodes(f.node))
+        for s in stmts:
+            if not (isinstance(s, ast.Call) and ("validate" in unparse(s.func) or unparse(s.func).endswith("_check_argument_range"))):
+                continue
+            names = {a.id for a in s.args if isinstance(a, ast.Name)}
+            if unparse(s.func).endswith("_check_argument_range"):
+                names = {s.args[1].id} if len(s.args) > 1 and isinstance(s.args[1], ast.Name) else set()
+            bad = None
+            for t in stmts:
+                if isinstance(t, (ast.Assign, ast.AnnAssign)) and t.value is not None and (t.lineno, t.col_offset) > (s.lineno, s.col_offset):
+                    for x in (t.targets if isinstance(t, ast.Assign) else [t.target]):
+                        if isinstance(x, ast.Name) and x.id in names:
+                            others = set()
+                            for y in ast.walk(t.value):
+                                if isinstance(y, ast.Name) and y.id != x.id and M.cls(y.id, required=False) is None:
+                                    par = getattr(y, "_parent", None)
+                                    if isinstance(par, ast.Call) and par.func is y:
+                                        continue  # a function being called
+                                    others.add(y.id)
+                            # other *inputs*: parameters of the function (receivers like `calendar` alone do not change the value's meaning... they do: count them only with a second input)
+                            params = {p.arg for p in f.value_params}
+                            if len(others & params) >= 1 and any(o in params and o != x.id for o in others) and len([o for o in others if o in params]) >= 2:
+                                bad = (x.id, t)
+            yield f, s, bad
+
+
+def _make_revalidate(prop: str):
+    def r_revalidate(ctx: Ctx) -> RuleResult:
+        rr = RuleResult(f"R{prop[1:]}.revalidate", "a validated name is not afterwards replaced by a value computed from further inputs (the value used is the value that was validated)", min_instances=0)
+        if "revalidate_total" not in ctx.cache:
+            ctx.cache["revalidate_total"] = sum(1 for _ in validated_then_replaced(ctx, None))
+        if ctx.cache["revalidate_total"] < 60:
+            from ..model import AnalysisError
+
+            raise AnalysisError(f"validation-call enumerator finds only {ctx.cache['revalidate_total']} calls in the whole package (108 confirmed)")
+        for f, s, bad in validated_then_replaced(ctx, anchor_scope(ctx, prop)):
+            rr.inst(nontrivial=False)
+            if bad:
+                rr.fail(f.qual, f"`{bad[0]}` is validated by `{unparse(s)[:60]}` and then replaced by `{unparse(bad[1])[:70]}`: the value that is used was not the one validated", ctx.loc(f, bad[1]))
+            else:
+                rr.ok()
+        return rr
+
+    r_revalidate.__name__ = f"r{prop[1:]}_revalidate"
+    return r_revalidate
+
+
+for _i in range(1, 21):
+    _p = f"C{_i:02d}"
+    rule(_p)(_make_revalidate(_p))
+
+
 # ------------------------------------------------------------------------------------------------ rules shared between properties
 
 # A change made to break one property often does so through a mechanism whose home is a neighbouring property; the home rule is then
